@@ -366,6 +366,7 @@ Proof.
   intros L s o I A. pose proof I as (W & F & D). unfold step. simpl fst.
   destruct o; simpl compile.
   - (* NewArr *) destruct (length v =? L); [apply inv_nofld; auto | exact I].
+  - (* NewArrRO *) destruct (length v =? L); [apply inv_nofld; auto | exact I].
   - (* NdView *) destruct (nd_at s n); [apply inv_nofld; auto | exact I].
   - (* NdCopy *) destruct (nd_at s n); [apply inv_nofld; auto | exact I].
   - (* NdWrite *) unfold np_setitem. destruct (nd_at s n) as [d |]; [| exact I].
@@ -679,6 +680,7 @@ Proof.
     destruct (nwr d); simpl; auto. destruct (i <? L); simpl; auto.
     repeat constructor. simpl. rewrite upd_length. eapply nd_val_len; eauto. }
   destruct o; simpl.
+  - destruct (length v =? L) eqn:E; simpl; auto. apply Nat.eqb_eq in E. repeat constructor. auto.
   - destruct (length v =? L) eqn:E; simpl; auto. apply Nat.eqb_eq in E. repeat constructor. auto.
   - destruct (nd_at s n); simpl; auto. repeat constructor.
   - destruct (nd_at s n) eqn:E; simpl; auto. repeat constructor. simpl. eapply nd_val_len; eauto.
